@@ -26,7 +26,8 @@ CONSTANTS Sizes,      \* byte sizes of mallocs / wraps
                       \* "leaky":   it is treated like wrapped memory on release (the code before the repair)
 
 VARIABLES bufs,    \* sequence of buffers [bytes, kind, views, wrapped]  (views = 0: released)
-          pools,   \* sequence of pools   [alive, cells, res (live reservations: set of ids), nres (ids handed out)]
+          pools,   \* sequence of pools   [alive, cells, res (live reservations: set of ids), nres (ids handed out),
+                   \*                      al (alignment: Cell or Cell/2)]
           bytes,   \* modeDevice_t::bytesAllocated
           maxb,    \* modeDevice_t::maxBytesAllocated
           taken,   \* ghost: every value `bytes` has had
@@ -114,7 +115,7 @@ FreeView(b) ==
 \* --- pools ------------------------------------------------------------------
 CreatePool ==
   /\ Len(pools) < MaxPools
-  /\ pools' = Append(pools, [alive |-> TRUE, cells |-> 0, res |-> {}, nres |-> 0])
+  /\ pools' = Append(pools, [alive |-> TRUE, cells |-> 0, res |-> {}, nres |-> 0, al |-> Cell])
   /\ UNCHANGED bufs
   /\ Commit(Rec("newPool", Len(pools) + 1, 0, FALSE, FALSE, FALSE), <<>>)
 
@@ -162,6 +163,18 @@ ShrinkToFit(p) ==
      /\ Commit(Rec("shrink", p, n, FALSE, FALSE, FALSE),
                IF n = pools[p].cells THEN <<>> ELSE ResizeDeltas(p, n))
 
+\* pool.setAlignment(a), a toggling between Cell and Cell/2 (every reservation stays one Cell, so placement still does
+\* not matter): with live reservations the pool is re-made with exactly the reserved size -- always, also when
+\* that is its current size -- new buffer first; an empty pool only notes the alignment
+SetAlignment(p) ==
+  /\ p \in LivePools
+  /\ UNCHANGED bufs
+  /\ LET n  == Cardinality(pools[p].res)
+         a2 == IF pools[p].al = Cell THEN Cell \div 2 ELSE Cell
+     IN /\ pools' = [pools EXCEPT ![p].al = a2, ![p].cells = IF n > 0 THEN n ELSE @]
+        /\ Commit(Rec("align", p, a2, FALSE, FALSE, FALSE),
+                  IF n > 0 THEN <<n * Cell>> \o (IF pools[p].cells > 0 THEN <<-(pools[p].cells * Cell)>> ELSE <<>>) ELSE <<>>)
+
 \* pool.free(): the reservations die with it, the backing buffer is released
 FreePool(p) ==
   /\ p \in LivePools
@@ -184,10 +197,11 @@ DoReserve     == Busy /\ \E p \in DOMAIN pools : Reserve(p)
 DoRelease     == Busy /\ \E p \in DOMAIN pools : \E r \in pools[p].res : Release(p, r)
 DoResize      == Busy /\ \E p \in DOMAIN pools : \E n \in 0..MaxCells : Resize(p, n)
 DoShrinkToFit == Busy /\ \E p \in DOMAIN pools : ShrinkToFit(p)
+DoSetAlignment == Busy /\ \E p \in DOMAIN pools : SetAlignment(p)
 DoFreePool    == Busy /\ \E p \in DOMAIN pools : FreePool(p)
 
 Call == \/ DoMalloc \/ DoMallocZero \/ DoWrap \/ DoClone \/ DoSlice \/ DoFreeView
-        \/ DoCreatePool \/ DoReserve \/ DoRelease \/ DoResize \/ DoShrinkToFit \/ DoFreePool
+        \/ DoCreatePool \/ DoReserve \/ DoRelease \/ DoResize \/ DoShrinkToFit \/ DoSetAlignment \/ DoFreePool
 
 \* generation (MaxHist > 0): a history of MaxHist calls is printed once by a last step
 Finish == /\ MaxHist > 0 /\ Len(hist) = MaxHist /\ ~done
@@ -211,7 +225,7 @@ AllReleased == (LiveBufs = {} /\ LivePools = {}) => bytes = 0
 
 \* design run: released buffers and dead pools keep only their slot in the numbering
 View == <<[b \in DOMAIN bufs |-> IF bufs[b].views > 0 THEN bufs[b] ELSE <<>>],
-         [p \in DOMAIN pools |-> IF pools[p].alive THEN [c |-> pools[p].cells, r |-> Cardinality(pools[p].res)] ELSE <<>>],
+         [p \in DOMAIN pools |-> IF pools[p].alive THEN [c |-> pools[p].cells, r |-> Cardinality(pools[p].res), a |-> pools[p].al] ELSE <<>>],
          bytes, maxb, SetMax(taken)>>
 
 =============================================================================
